@@ -6,7 +6,7 @@ var c03Sanctioned = map[string][]string{
 	"extractor/filesystem/language/dotnet/packageslockjson.Extractor.extractFromInput": {
 		"!next(range(…#2))#0",
 		"!next(range(…#2))#0",
-		"!next(range(…))#0",
+		"!next(range(….Dependencies))#0",
 	},
 	"extractor/filesystem/language/golang/gomod.Extractor.Extract": {
 		"!next(range(…#0))#0",
@@ -14,72 +14,72 @@ var c03Sanctioned = map[string][]string{
 	},
 	"extractor/filesystem/language/golang/gomod.Extractor.extractGoMod": {
 		"!next(range(make(map)))#0",
-		"builtin.len(φ:[]gomod.pkgKey) <= (φ:int+1:int)",
+		"range-end: φ:[]gomod.pkgKey",
 	},
 	"extractor/filesystem/language/golang/gomod.extractFromSum": {
 		"!bufio.Scanner.Scan(bufio.NewScanner(*ssa.ChangeInterface))",
 		"3:int != builtin.len(strings.Fields(bufio.Scanner.Text(bufio.NewScanner(…))))",
 		"builtin.len(bufio.Scanner.Text(bufio.NewScanner(*ssa.ChangeInterface))) == 0",
-		"strings.Contains(strings.TrimPrefix(…[…],\"v\":string),\"/go.mod\":string)",
+		"strings.Contains(strings.TrimPrefix(strings.Fields(…)[1:int],\"v\":string),\"/go.mod\":string)",
 	},
 	"extractor/filesystem/language/java/gradlelockfile.Extractor.Extract": {
-		"!bufio.Scanner.Scan(bufio.NewScanner(….Reader))",
+		"!bufio.Scanner.Scan(bufio.NewScanner(param2.Reader))",
 		"!extractor/filesystem/language/java/gradlelockfile.isGradleLockFileDepLine(strings.TrimSpace(bufio.Scanner.Text(bufio.NewScanner(…))))",
 		"extractor/filesystem/language/java/gradlelockfile.parseToGradlePackageDetail(strings.TrimSpace(bufio.Scanner.Text(…)))#1 != nil:error",
 	},
 	"extractor/filesystem/language/php/composerlock.Extractor.Extract": {
-		"builtin.len(….PackagesDev) <= (φ:int+1:int)",
+		"range-end: local:**composerlock.composerLock.PackagesDev",
 	},
 	"extractor/filesystem/language/python/pipfilelock.addPkgDetails": {
 		"!next(range(param1))#0",
 		"!strings.HasPrefix(local:*pipfilelock.pipenvPackage.Version,\"==\":string)",
-		"builtin.len(local:*pipfilelock.pipenvPackage.Version) == 0",
 		"builtin.len(local:*pipfilelock.pipenvPackage.Version) < 3:int",
+		"builtin.len(local:*pipfilelock.pipenvPackage.Version) == 0",
 		"param0[((…+…)+…[:])]#1",
 	},
 	"extractor/filesystem/language/python/poetrylock.Extractor.Extract": {
-		"builtin.len(….Packages) <= (φ:int+1:int)",
+		"range-end: local:**poetrylock.poetryLockFile.Packages",
 	},
 	"extractor/filesystem/language/python/requirements.extractFromExtraPaths": {
 		"builtin.len(φ:requirements.pathQueue) == 0",
-		"extractor/filesystem/language/python/requirements.openAndExtractFromFile(…[…],param2)#2 != nil:error",
-		"make(map)[…[…]]#1",
+		"extractor/filesystem/language/python/requirements.openAndExtractFromFile(φ:requirements.pathQueue[0:int],param2)#2 != nil:error",
+		"make(map)[φ:requirements.pathQueue[0:int]]#1",
 	},
 	"extractor/filesystem/language/python/requirements.extractFromPath": {
 		"!bufio.Scanner.Scan(bufio.NewScanner(param0))",
-		"!extractor/filesystem/language/python/requirements.isValidPackage(extractor/filesystem/language/python/requirements.getLowestVersion(extractor/filesystem/language/python/requirements.removeExtras(…))#0)",
-		"builtin.len(extractor/filesystem/language/python/requirements.removeExtras(extractor/filesystem/language/python/requirements.ignorePythonSpecifier(extractor/filesystem/language/python/requirements.removeWhiteSpaces(…)))) == 0",
-		"builtin.len(extractor/filesystem/language/python/requirements.getLowestVersion(extractor/filesystem/language/python/requirements.removeExtras(extractor/filesystem/language/python/requirements.ignorePythonSpecifier(…)))#1) == 0 && builtin.len(extractor/filesystem/language/python/requirements.getLowestVersion(extractor/filesystem/language/python/requirements.removeExtras(extractor/filesystem/language/python/requirements.ignorePythonSpecifier(…)))#2) != 0",
-		"builtin.len(extractor/filesystem/language/python/requirements.getLowestVersion(extractor/filesystem/language/python/requirements.removeExtras(extractor/filesystem/language/python/requirements.ignorePythonSpecifier(…)))#0) == 0",
-		"strings.HasPrefix(extractor/filesystem/language/python/requirements.removeExtras(extractor/filesystem/language/python/requirements.ignorePythonSpecifier(extractor/filesystem/language/python/requirements.removeWhiteSpaces(…))),\"-\":string)",
+		"!regexp.Regexp.MatchString(reValidPkg,extractor/filesystem/language/python/requirements.getLowestVersion(regexp.Regexp.ReplaceAllString(…,…,…))#0)",
+		"builtin.len(extractor/filesystem/language/python/requirements.getLowestVersion(regexp.Regexp.ReplaceAllString(reExtras,…[…],\"\":string))#0) == 0",
+		"builtin.len(extractor/filesystem/language/python/requirements.getLowestVersion(regexp.Regexp.ReplaceAllString(reExtras,…[…],\"\":string))#1) == 0 && builtin.len(extractor/filesystem/language/python/requirements.getLowestVersion(regexp.Regexp.ReplaceAllString(reExtras,…[…],\"\":string))#2) != 0",
+		"builtin.len(regexp.Regexp.ReplaceAllString(reExtras,strings.SplitN(…,…,…)[0:int],\"\":string)) == 0",
+		"strings.HasPrefix(regexp.Regexp.ReplaceAllString(reExtras,strings.SplitN(…,…,…)[0:int],\"\":string),\"-\":string)",
 	},
 	"extractor/filesystem/language/ruby/gemfilelock.Extractor.Extract": {
-		"!slices.Contains(\"GIT\":string,\"GEM\":string,\"PATH\":string,\"PLUGIN SOURCE\":string,….name)",
-		"builtin.len(regexp.Regexp.FindStringSubmatch(…,…)[1:int]) == 0",
-		"builtin.len(regexp.Regexp.FindStringSubmatch(…,…)[2:int]) == 0",
-		"builtin.len(extractor/filesystem/language/ruby/gemfilelock.parseLockfileSections(param2)#0) <= (φ:int+1:int)",
-		"builtin.len(regexp.Regexp.FindStringSubmatch(nameVersionRegexp,…[…])) < 3:int",
-		"builtin.len(….specs) <= (φ:int+1:int)",
-		"builtin.len(….specs) <= (φ:int+1:int)",
+		"!slices.Contains(\"GIT\":string,\"GEM\":string,\"PATH\":string,\"PLUGIN SOURCE\":string,…#0[ι].name)",
+		"builtin.len(regexp.Regexp.FindStringSubmatch(nameVersionRegexp,….specs[ι])) < 3:int",
+		"builtin.len(regexp.Regexp.FindStringSubmatch(nameVersionRegexp,….specs[ι])[1:int]) == 0",
+		"builtin.len(regexp.Regexp.FindStringSubmatch(nameVersionRegexp,….specs[ι])[2:int]) == 0",
+		"range-end: extractor/filesystem/language/ruby/gemfilelock.parseLockfileSections(param2)#0",
+		"range-end: …#0[ι].specs",
+		"range-end: …#0[ι].specs",
 	},
 	"extractor/filesystem/language/rust/cargolock.Extractor.Extract": {
-		"builtin.len(….Packages) <= (φ:int+1:int)",
+		"range-end: local:**cargolock.cargoLockFile.Packages",
 	},
 	"extractor/filesystem/os/apk.Extractor.extractFromInput": {
 		"builtin.len(extractor/filesystem/os/apk.parseSingleApkRecord(bufio.NewScanner(…))#0) == 0",
 		"builtin.len(local:*extractor.Package.Name) == 0",
 		"builtin.len(local:*extractor.Package.Version) == 0",
 		"context.Context.Err(param1) != nil:error",
-		"extractor/filesystem/os/apk.parseSingleApkRecord(bufio.NewScanner(…))#1 != nil:error",
+		"extractor/filesystem/os/apk.parseSingleApkRecord(bufio.NewScanner(….Reader))#1 != nil:error",
 		"false:bool",
 	},
 	"extractor/filesystem/os/dpkg.Extractor.extractFromInput": {
 		"!errors.Is(net/textproto.Reader.ReadMIMEHeader(net/textproto.NewReader(…))#1,EOF)",
 		"!extractor/filesystem/os/dpkg.statusInstalled(net/textproto.MIMEHeader.Get(…#0,\"Status\":string))#0",
-		"builtin.len(net/textproto.Reader.ReadMIMEHeader(net/textproto.NewReader(…))#0) == 0",
 		"builtin.len(net/textproto.MIMEHeader.Get(net/textproto.Reader.ReadMIMEHeader(net/textproto.NewReader(…))#0,\"Package\":string)) == 0",
 		"builtin.len(net/textproto.MIMEHeader.Get(net/textproto.Reader.ReadMIMEHeader(net/textproto.NewReader(…))#0,\"Status\":string)) == 0",
 		"builtin.len(net/textproto.MIMEHeader.Get(net/textproto.Reader.ReadMIMEHeader(net/textproto.NewReader(…))#0,\"Version\":string)) == 0",
+		"builtin.len(net/textproto.Reader.ReadMIMEHeader(net/textproto.NewReader(…))#0) == 0",
 		"context.Context.Err(param1) != nil:error",
 		"extractor/filesystem/os/dpkg.parseSourceNameVersion(net/textproto.MIMEHeader.Get(…#0,\"Source\":string))#2 != nil:error",
 		"extractor/filesystem/os/dpkg.statusInstalled(net/textproto.MIMEHeader.Get(…#0,\"Status\":string))#1 != nil:error",
